@@ -115,7 +115,28 @@ def rule_r2(repo):
             calls = [norm(c.func) for c in effects(fi).calls]
             if not any(c == 'self._bit_stream_read' or c.startswith('self.read_') for c in calls):
                 rr.fail('%s:no-wrapper' % fi.qualname, fi.where, '%s does not read through _bit_stream_read' % fi.qualname)
-    rr.require_floor(3)
+    # every format handed to the wrapper carries an explicit length: bitstring reports a short read of a sized format with
+    # ReadError (a bitstring.Error, converted above) but of an unsized one-token format such as 'bool' with ValueError
+    for name, fi in sorted(cls.methods.items()):
+        for c in effects(fi).calls:
+            if norm(c.func) != 'self._bit_stream_read' or not c.args:
+                continue
+            a = c.args[0]
+            lits = [x.value for x in ast.walk(a) if isinstance(x, ast.Constant) and isinstance(x.value, str)]
+            if isinstance(a, ast.Name):
+                # a local built by .format in the same function
+                for n in ast.walk(fi.node):
+                    if isinstance(n, ast.Assign) and any(isinstance(t, ast.Name) and t.id == a.id for t in n.targets):
+                        lits += [x.value for x in ast.walk(n.value) if isinstance(x, ast.Constant) and isinstance(x.value, str)]
+            rr.instance('%s reads format(s) %s' % (fi.qualname, lits))
+            if not lits:
+                raise AnalysisError('%s: cannot see the format string handed to _bit_stream_read' % fi.qualname)
+            for l in lits:
+                if ':' not in l:
+                    rr.fail('%s:unsized-format' % fi.qualname, '%s:%d' % (fi.module.relpath, c.lineno),
+                            '%s reads the unsized format %r: when the data end here bitstring raises ValueError, not a bitstring.Error, so the '
+                            'wrapper does not turn it into BitReadError (a message truncated at this point fails with a foreign exception)' % (fi.qualname, l))
+    rr.require_floor(7)
     return rr
 
 
@@ -188,6 +209,116 @@ def rule_r4(repo):
     return rr
 
 
+def rule_r7(repo):
+    """Folds the template walk (decoder and template compiler) with an undefined descriptor at every structural position and under
+    every operator regime that changes how the next member is treated: every path must end in a library error.  The placeholder
+    objects are strict: reading an attribute no Undefined* class defines is the AttributeError the running code would raise."""
+    from sa.patheval import Obj, Top, Sym
+    from sa.rules import c08
+    from sa.rules.walk import element, operator
+    rr = RuleResult('C12.R7', 'an undefined descriptor is refused with a library error at every position of the template (fold of the walk)')
+    consts = dict((k, repo.const('coder', k)) for k in ('BITMAP_INDICATOR', 'BITMAP_WAITING_FOR_BIT', 'BITMAP_BIT_COUNTING'))
+
+    def U(kind):
+        return Obj('Undefined%sDescriptor' % kind, {'id': 12255 if kind == 'Element' else 312255, '__strict__': True})
+
+    el = element(12101)
+    fac = element(31001, unit='NUMERIC')
+
+    def positions(u):
+        yield 'top level', [u], None
+        yield 'after an element', [el, u], None
+        yield 'inside a fixed replication', [Obj('FixedReplicationDescriptor', {'id': 101002, 'members': [u]})], None
+        yield 'inside a delayed replication', [Obj('DelayedReplicationDescriptor', {'id': 101000, 'members': [u], 'factor': fac})], None
+        yield 'inside a sequence', [Obj('SequenceDescriptor', {'id': 301001, 'name': 's', 'members': [el, u]})], None
+        yield 'after 201YYY', [operator(201, 130), u], None
+        yield 'while 203YYY defines reference values', [u], {'nbits_of_new_refval': 12}
+        yield 'while 204YYY is in force', [u], {'nbits_of_associated': [2]}
+        yield 'while 221YYY is counting', [u], {'data_not_present_count': 2}
+        yield 'after 222000', [u], {'status_qa_info_follows': repo.const('coder', 'QA_INFO_WAITING')}
+        for k, v in sorted(consts.items()):
+            yield 'while a bitmap is being defined (%s)' % k, [u], {'bitmap_definition_state': v}
+        if u.cls == 'UndefinedElementDescriptor':
+            yield 'as the factor of a delayed replication', [Obj('DelayedReplicationDescriptor', {'id': 101000, 'members': [el], 'factor': u})], None
+            yield 'as the factor of a nested delayed replication', [Obj('FixedReplicationDescriptor', {'id': 101002, 'members': [
+                Obj('DelayedReplicationDescriptor', {'id': 101000, 'members': [el], 'factor': u})]})], None
+
+    for kind in ('Element', 'Sequence'):
+        if not repo.has_cls('Undefined%sDescriptor' % kind):
+            raise AnalysisError('class Undefined%sDescriptor vanished' % kind)
+        for label, members, extra in positions(U(kind)):
+            runs = [('Decoder', c08.run_plain(repo, members, 'Decoder', extra))]
+            if extra is None:
+                runs.append(('TemplateCompiler', [r for r, _ in c08.run_compile(repo, members)]))
+            for coder, res in runs:
+                rr.instance('%s: undefined %s descriptor %s' % (coder, kind.lower(), label))
+                if not res:
+                    raise AnalysisError('no path for %s / %s' % (coder, label))
+                for r in res:
+                    if r.ok:
+                        rr.fail('%s:undefined-%s:%s' % (coder, kind.lower(), label), repo.method(coder, 'process_members').where,
+                                '%s: an undefined %s descriptor %s is processed without an error (path %s)' % (coder, kind.lower(), label, r.describe()))
+                    elif not is_lib_error(repo, r.exc.cls):
+                        rr.fail('%s:undefined-%s:%s' % (coder, kind.lower(), label), r.exc.where or repo.method(coder, 'process_members').where,
+                                '%s: an undefined %s descriptor %s ends in %s (%s), which is not a %s: with continue-on-error it escapes the '
+                                'handler and the messages after the damaged one are lost' % (coder, kind.lower(), label, r.exc.cls, r.exc.value or '', ROOT),
+                                witness={'position': label, 'coder': coder})
+    # a replication the data repeat zero times: its members are never visited by the plain walk
+    from sa.patheval import FuncRef
+
+    class ZeroFactor(c08.NoQuery):
+        def on_call(self2, text, callee, args, kwargs, node, frame):
+            if isinstance(callee, FuncRef) and callee.fi.name == 'get_value_for_delayed_replication_factor':
+                return 0
+            return c08.NoQuery.on_call(self2, text, callee, args, kwargs, node, frame)
+
+    fi = repo.method('Decoder', 'process_members')
+    for kind in ('Element', 'Sequence'):
+        u = U(kind)
+        members = [Obj('DelayedReplicationDescriptor', {'id': 101000, 'members': [u], 'factor': fac})]
+        it = ZeroFactor(repo, 'Decoder')
+        res = it.run_function(fi, lambda: {'self': Obj('Decoder', {}), 'state': c08._mk_state(repo, it, 'CoderState', None),
+                                           'bit_operator': Top('b'), 'members': list(members)}, self_class='Decoder')
+        label = 'inside a delayed replication repeated zero times'
+        rr.instance('Decoder: undefined %s descriptor %s' % (kind.lower(), label))
+        for r in res:
+            if r.ok:
+                rr.fail('Decoder:undefined-%s:%s' % (kind.lower(), label), fi.where,
+                        'Decoder: an undefined %s descriptor %s is never looked at: the message decodes although its descriptor list is damaged '
+                        '(the compiled-template path refuses the same list)' % (kind.lower(), label))
+            elif not is_lib_error(repo, r.exc.cls):
+                rr.fail('Decoder:undefined-%s:%s' % (kind.lower(), label), r.exc.where or fi.where, 'ends in %s' % r.exc.cls)
+    rr.require_floor(40)
+    return rr
+
+
+def rule_r8(repo):
+    """Folds the template construction over descriptor lists cut short at every point (what a decreased section 3 length leaves):
+    the outcome is a template or a library error, never StopIteration (a RuntimeError inside generate_bufr_message)."""
+    from sa.rules import c14
+    rr = RuleResult('C12.R8', 'a descriptor list cut at any point builds a template or raises a library error (fold of the template construction)')
+    full = [[101000, 31001, 12101], [102000, 31001, 1001, 12101], [103002, 1001, 101000, 31001, 12101], [1001, 101000, 31001, 12101],
+            [102002, 101000, 31002, 12101, 1001], [301001, 104000, 31001, 1001, 102000, 31001, 12101, 10004, 7004], [201130, 101000, 31001, 12101, 201000]]
+    seen = set()
+    for ids in full:
+        for cut in range(1, len(ids) + 1):
+            pre = tuple(ids[:cut])
+            if pre in seen:
+                continue
+            seen.add(pre)
+            fi, res = c14.build(repo, list(pre))
+            rr.instance('descriptor list %s' % (list(pre),))
+            for r in res:
+                if r.ok:
+                    continue
+                if not is_lib_error(repo, r.exc.cls):
+                    rr.fail('_descriptors_from_ids_iter:cut-list:%s' % r.exc.cls, r.exc.where or fi.where,
+                            'the descriptor list %s (a list cut after %d of %d descriptors) makes the template construction end in %s, '
+                            'which is not a %s' % (list(pre), cut, len(ids), r.exc.cls, ROOT), witness={'ids': list(pre)})
+    rr.require_floor(20)
+    return rr
+
+
 def run(repo, check):
     check.run_rule(rule_r1, repo)
     check.run_rule(rule_r2, repo)
@@ -207,5 +338,7 @@ def run(repo, check):
     for f in r6.findings:
         f.rule = 'C12.R6'
     check.add(r6)
-    check.assumptions = ['implicit exceptions (IndexError, KeyError, ...) are outside the claim; only explicit raise/assert sites are decided',
-                         'bitstring raises a subclass of bitstring.Error on a read past the end']
+    check.run_rule(rule_r7, repo)
+    check.run_rule(rule_r8, repo)
+    check.assumptions = ['implicit exceptions are decided only where a fold executes the code (R5, R7, R8: template walk, template construction, scanner); elsewhere only explicit raise/assert sites are decided',
+                         'bitstring raises a subclass of bitstring.Error on a short read of a sized format (uint:n, bytes:n, bin:n) and ValueError on a short read of the unsized bool format (bitstring 4.x, confirmed by reading its source and by experiment)']
